@@ -656,6 +656,9 @@ var sharedInitPkgs = map[string]bool{
 	"unicode/utf16": true, "path/filepath": true, "path": true, "syscall": true, "context": true,
 }
 
+// fallThrough is returned by an intrinsic that declines: the function's own body is executed.
+type fallThrough struct{}
+
 func (m *Machine) callSSA(caller *frame, pos token.Pos, fn *ssa.Function, args []Value, env []Value) Value {
 	depth := 0
 	var g *Goroutine
@@ -674,8 +677,10 @@ func (m *Machine) callSSA(caller *frame, pos token.Pos, fn *ssa.Function, args [
 			return m.call(caller, pos, st, args)
 		}
 		if ext, ok := intrinsics[name]; ok {
-			m.intrinsicHits[name]++
-			return ext(m, fr, args)
+			if r := ext(m, fr, args); r != (fallThrough{}) {
+				m.intrinsicHits[name]++
+				return r
+			}
 		}
 		if isSovFunc(fn) {
 			m.intrinsicHits["<pkg>.sov*"]++
